@@ -748,6 +748,19 @@ pub fn judge_scenario(sc: &crate::props::big::Scenario, res: &crate::props::big:
                     return Err(Failure::new("child-wrong-answer", format!("scenario `{}` reported {:?}, expected polys={:?}", sc.text(), m, want)));
                 }
             }
+            if SHAPES[*shape] == "nested" {
+                // n/2 annuli; the box cuts a corner of the outermost band only: every annulus stays a polygon with
+                // one hole under union and difference, the intersection is one rectangle
+                let k = (*n as i64 / 2).max(1);
+                let want = match crate::exec::OPS[*op] {
+                    geo_booleanop::boolean::Operation::Intersection => Some((1, 1)),
+                    geo_booleanop::boolean::Operation::Difference | geo_booleanop::boolean::Operation::Union => Some((k, 2 * k)),
+                    geo_booleanop::boolean::Operation::Xor => None,
+                };
+                if want.map(|w| w != (g("polys"), g("rings"))).unwrap_or(false) || g("events") == 0 {
+                    return Err(Failure::new("child-wrong-answer", format!("scenario `{}` reported {:?}, expected (polys, rings)={:?} and a real sweep", sc.text(), m, want)));
+                }
+            }
             Ok(g("edges") >= 100_000 && g("break_len") >= 10_000)
         }
     }
